@@ -136,6 +136,8 @@ func item(c cfg, oracle string) *explore.Item {
 	bound := -1
 	if c.Deep > 0 {
 		bound = c.Deep
+	} else if len(c.Chain) > 0 {
+		bound = 1 // chained histories are long and mostly sequential: what matters is the sequence; one deviation per execution in both tiers
 	}
 	return &explore.Item{Name: c.name(), Bound: bound, MaxSteps: 30000, MaxClock: 200, Body: func(x *explore.Exec) {
 		reactive.WriteThenReadDelay = 0
@@ -194,9 +196,56 @@ func item(c cfg, oracle string) *explore.Item {
 		}
 		rt.QuiesceWithin(time.Minute)
 		// a chained history: each change lands on a settled system (runs complete, caches cleaned, resources released)
+		onlySubscribes := true
+		for _, op := range c.Client {
+			if !strings.HasPrefix(op, "S:") {
+				onlySubscribes = false
+			}
+		}
 		for _, e := range c.Chain {
 			w.apply(changeIndex(e))
 			rt.QuiesceWithin(time.Minute)
+			if oracle == "lifecycle-only" || !onlySubscribes {
+				continue
+			}
+			// convergence is judged after every settled step, not only at the end of the history
+			mid := map[string]*sub{}
+			for _, ev := range w.events {
+				switch {
+				case ev.Kind == "send" && ev.Type == "subscribe":
+					if mid[ev.ID] == nil {
+						mid[ev.ID] = &sub{q: ev.Q}
+					}
+				case ev.Kind == "write" && ev.Type == "error":
+					if s := mid[ev.ID]; s != nil {
+						s.ended = true
+					}
+				case ev.Kind == "write" && ev.Type == "update":
+					if s := mid[ev.ID]; s != nil && !s.ended {
+						var d interface{}
+						json.Unmarshal(ev.Msg, &d)
+						s.st, _ = merge.Merge(s.st, d)
+						s.ref, _ = refmerge.Merge(s.ref, d)
+					}
+				}
+			}
+			for id, s := range mid {
+				if s.ended {
+					continue
+				}
+				want, err := gqlfix.Exec(context.Background(), w.schema, gqlfix.FIFO{}, queries[s.q], nil)
+				if err != nil {
+					continue
+				}
+				want = norm(diff.StripKey(want))
+				if got := norm(s.st); !reflect.DeepEqual(got, want) {
+					x.Fail("converges", "serverh/converges-step/"+s.q, "after the settled change %q the client state of %s (%s) folded with merge.Merge is %s, the query now gives %s", e, id, s.q, gqlfix.JS(got), gqlfix.JS(want))
+				}
+				if got := norm(s.ref); !reflect.DeepEqual(got, want) {
+					x.Fail("converges-client-format", "serverh/converges-ref-step/"+s.q, "after the settled change %q the client state of %s (%s) folded per the documented format is %s, the query now gives %s", e, id, s.q, gqlfix.JS(got), gqlfix.JS(want))
+				}
+			}
+			rt.QuiesceWithin(time.Minute) // let the reference executions' throw-away resources drain
 		}
 
 		// ---------- client model: fold the event log ----------
@@ -431,7 +480,7 @@ func c02configs(tier string) []cfg {
 	envFor := map[string][]string{
 		"flag":  {"flag++"},
 		"items": {"reorder", "insert", "delete", "edit"},
-		"thing": {"union-switch", "union-null"},
+		"thing": {"union-switch", "union-null", "union-plain"},
 		"maybe": {"maybe-toggle", "flag++"},
 	}
 	for _, q := range qs {
@@ -464,6 +513,7 @@ func c02configs(tier string) []cfg {
 		cfg{Client: []string{"S:a:people"}, Chain: []string{"p-score1", "p-remove", "p-score", "p-add", "p-score"}},
 		cfg{Client: []string{"S:a:items"}, Chain: []string{"delete", "insert", "edit", "reorder"}},
 		cfg{Client: []string{"S:a:thing", "S:b:maybe"}, Chain: []string{"union-null", "maybe-toggle", "union-null", "maybe-toggle"}},
+		cfg{Client: []string{"S:a:thing"}, Chain: []string{"union-plain", "union-plain", "union-switch", "union-plain", "union-null", "union-plain"}},
 	)
 	if tier == "thorough" {
 		for _, q := range qs {
